@@ -65,3 +65,43 @@ fn c03_execution_stays_within_limits() {
     }
     println!("CASES c03_execution_limits {cases}");
 }
+
+/// gas: a forked thread inherits the gas already consumed, and no thread runs on once it is over the limit
+#[test]
+fn c03_gas_is_inherited_and_bounded() {
+    use storage_layout_extractor::vm::{state::VMState, thread::VMThread};
+    let is = InstructionStream::try_from(vec![0x5bu8, 0x5b, 0x5b, 0x5b, 0x5b, 0x5b, 0x00].as_slice()).unwrap();
+    let state = VMState::new_at_start(is.len() as u32, Config::default());
+    let mut t = VMThread::new(state, is.new_thread(0).unwrap());
+    t.consume_gas(1234);
+    let f = t.fork(4);
+    if f.gas_usage() != 1234 { witness("C03", "limits.fork.inherits_gas", "consume_gas(1234); fork(4)".into(), format!("{}", f.gas_usage()), "1234".into()); }
+    if t.gas_usage() != 1234 { witness("C03", "limits.consume_gas.adds_exactly", "consume_gas(1234)".into(), format!("{}", t.gas_usage()), "1234".into()); }
+    // a chain of forks under a small gas limit: every stored state's path cost stays near the limit
+    // CALLDATASIZE PUSH1 d JUMPI ... repeated; each stage costs 2+3+10 = 15 gas; limit 40 => at most ~4 stages run
+    let stages = 12usize;
+    let mut code: Vec<u8> = vec![];
+    for s in 0..stages {
+        let dest = ((s + 1) * 6) as u8;
+        code.extend([0x36, 0x60, dest, 0x57, 0x00, 0x5b]);
+    }
+    code.extend([0x60, 0x01, 0x60, 0x09, 0x55, 0x00]);
+    let limit = 40usize;
+    let is = InstructionStream::try_from(code.as_slice()).unwrap();
+    let mut vm = VM::new(is, Config::default().with_gas_limit(limit).with_permissive_errors(true), LazyWatchdog.in_rc()).unwrap();
+    let _ = vm.execute();
+    let res = vm.consume();
+    let cost = |b: u8| -> usize { match b { 0x36 => 2, 0x60 => 3, 0x57 => 10, 0x5b => 1, 0x55 => 100, _ => 0 } };
+    for st in &res.states {
+        let mut spent = 0usize;
+        let mut ip = 0usize;
+        while ip < code.len() {
+            let c = st.visited_instructions().visit_count(ip as u32).unwrap_or(0);
+            spent += c * cost(code[ip]);
+            ip += if code[ip] == 0x60 { 2 } else { 1 };
+        }
+        // one instruction may start while at the limit (the check is after the fact); a forked child is not charged for its JUMPI
+        if spent > limit + 100 + 10 * stages { witness("C03", "limits.gas_limit_respected", format!("fork chain code={code:02x?} gas_limit={limit}"), format!("a path consumed at least {spent} gas"), format!("about {limit}")); }
+    }
+    println!("CASES c03_gas 2");
+}
